@@ -164,6 +164,14 @@ def repl_terms(wd):
     out = [g.ID('r', wd), g.OP('+', g.ID('r', wd), g.ID('q', wd))]
     if wd in (1, 8, 16, 32, 64):
         out.append(g.I(wd, 5))
+    if wd <= 32:
+        # images that are themselves slices / cells / concatenations (a rebuilt parent must not re-interpret them)
+        out.append(g.SL(g.ID('rr', 64), 8, 8 + wd))
+        out.append(g.SL(g.ID('rr', 64), 0, wd))
+        if wd in (8, 16, 32):
+            out.append(g.MEM(g.ID('r', 32) if wd != 32 else g.ID('rr32', 32), wd))
+        if wd >= 2:
+            out.append(g.CO((g.SL(g.ID('r', wd), 0, wd // 2), 0, wd // 2), (g.SL(g.ID('q', wd), 0, wd - wd // 2), wd // 2, wd)))
     return out
 
 
@@ -280,6 +288,8 @@ def replace_laws(part, t, w, seed):
             ids = dict(lanes(w, seed))
             ids['r'] = ids['a'] ^ np.uint64(0x5a)
             ids['q'] = ids['b'] + np.uint64(3)
+            ids['rr'] = (ids['a'] * np.uint64(0x0101010101010101)) ^ np.uint64(0x0123456789abcdef)
+            ids['rr32'] = ids['b'] ^ np.uint64(0x1234)
             try:
                 same = (irsem.ev_np(tr, ids, 0) == irsem.ev_np(expect, ids, 0)).all()
             except Exception:
